@@ -152,16 +152,32 @@ def main():
         kw = {}
         if cube_index is not None:
             kw["cube_index"] = cube_index
-        res = BANE.filter_image(im, out_base, step_size=(g, g), box_size=(b, b),
-                                cores=int(spec["cores"]), mask=bool(spec["mask"]),
-                                nslice=int(spec["stripes"]),
-                                compressed=bool(spec.get("compressed", False)), **kw)
-        if res is None:
-            out = {"outcome": "raised", "error": "ReturnedNone", "text": "filter_image returned None"}
+        if spec.get("via") == "cli":
+            # the command line front end (files are the only observation site)
+            from AegeanTools.CLI import BANE as cli
+            argv = [im, "--out", out_base, "--grid", str(g), str(g), "--box", str(b), str(b),
+                    "--cores", str(int(spec["cores"])), "--stripes", str(int(spec["stripes"]))]
+            if cube_index is not None:
+                argv += ["--slice", str(cube_index)]
+            if not spec["mask"]:
+                argv.append("--nomask")
+            if spec.get("compressed", False):
+                argv.append("--compress")
+            rc = cli.main(argv)
+            logging.disable(logging.CRITICAL)
+            res = () if rc == 0 else None
         else:
-            bkg, rms = res
-            np.save(os.path.join(d, "bkg.npy"), np.asarray(bkg))
-            np.save(os.path.join(d, "rms.npy"), np.asarray(rms))
+            res = BANE.filter_image(im, out_base, step_size=(g, g), box_size=(b, b),
+                                    cores=int(spec["cores"]), mask=bool(spec["mask"]),
+                                    nslice=int(spec["stripes"]),
+                                    compressed=bool(spec.get("compressed", False)), **kw)
+        if res is None:
+            out = {"outcome": "raised", "error": "ReturnedNone", "text": "filter_image returned None / CLI status != 0"}
+        else:
+            if len(res) == 2:
+                bkg, rms = res
+                np.save(os.path.join(d, "bkg.npy"), np.asarray(bkg))
+                np.save(os.path.join(d, "rms.npy"), np.asarray(rms))
             out["files"] = False
             if out_base is not None:
                 fb, fr = out_base + "_bkg.fits", out_base + "_rms.fits"
